@@ -42,7 +42,11 @@ func runC13(c *Ctx) {
 func ruleC13For(c *Ctx, sub *ssa.Function, do, rr, pm *ssa.Call, first bool) {
 	p := c.P
 	res := resultOf(do, 0)
-	isRes := vOrigins(oIsValue(res))
+	// (nil: what a sending helper returns beside its error — never used past the error test)
+	isRes := func(v ssa.Value) bool {
+		ok, _ := allOrigins(v, oIsValue(res), oNil())
+		return ok && someOrigin(v, oIsValue(res))
+	}
 	mt := resultOf(pm, 0)
 	// content type
 	ct := pm.Call.Args[0]
@@ -263,6 +267,17 @@ func ruleC13For(c *Ctx, sub *ssa.Function, do, rr, pm *ssa.Call, first bool) {
 			for i, e := range phi.Edges {
 				if okR, _ := allOrigins(e, oFieldLoad(runtimeT, "client", nil)); okR {
 					if !edgeGuarded(phi.Block().Preds[i], phi.Block(), nil, factNil(vFieldLoadO("rt.ClientOperation", "Client"), true)) {
+						okP, whyP = false, "the transport's client can be used although the operation has its own"
+					}
+				}
+			}
+		} else if call := asCall(recvDo); call != nil && transparentCallee(call) != nil {
+			// the choice made in a helper / an immediately invoked literal: each of its returns that yields the transport's
+			// client lies behind `operation.Client == nil`
+			callee := transparentCallee(call)
+			for _, r := range returnsOf(callee) {
+				if okR, _ := allOrigins(resOf(r, 0), oFieldLoad(runtimeT, "client", nil)); okR {
+					if !guardedBy(r, nil, factNil(vFieldLoadO("rt.ClientOperation", "Client"), true)) {
 						okP, whyP = false, "the transport's client can be used although the operation has its own"
 					}
 				}
